@@ -8,7 +8,7 @@ import re
 
 from ..astutil import call_attr, calls_in, guard_facts, parent_map, resolved_guard_facts, unparse, walk_local, text_facts
 from ..cfg import CFG
-from ..dataflow import resolved_text
+from ..dataflow import reaching_defs, resolved_text
 from ..report import Finding, Report
 from ..srcindex import AnalysisError, Index, dotted, raw_funcs
 from .c15 import CMP_OP, _str_list, impls
@@ -518,6 +518,54 @@ def check_cse_scopes(idx: Index, rep: Report) -> None:
         raise AnalysisError(f"{init.fq}: no assignment of self._known_ops for a given parent scope")
 
 
+def check_float_fold_overflow(idx: Index, rep: Report) -> None:
+    """FloatAttr(value, type) rounds `value` to the precision of `type` by packing it; struct.pack raises OverflowError
+    when a finite double rounds to infinity in a narrower type.  A float fold that builds the attribute from a computed
+    value must therefore catch OverflowError (or test the range): otherwise canonicalize fails on `mulf 3e38, 10 : f32`
+    instead of folding it (to +inf) or leaving it in place."""
+    r = rep.rule("C14.R11", "a float constant fold that builds FloatAttr(<computed value>, <type>) handles the OverflowError of packing (the pass folds or leaves the op, it does not fail)", floor=1)
+    from ..astutil import parent_map
+
+    n = 0
+    for f in raw_funcs(idx.module(CP)):
+        cfg = None
+        for c in calls_in(f.node):
+            if unparse(c.func).split(".")[-1] != "FloatAttr" or len(c.args) < 2:
+                continue
+            v = c.args[0]
+            if cfg is None:
+                cfg = CFG(f.node)
+            computed = False
+            if isinstance(v, ast.Name):
+                for _, d_ in reaching_defs(cfg, v.id, cfg.node_of(c)):
+                    if d_ is not None and any(isinstance(x, ast.BinOp) and isinstance(x.op, (ast.Add, ast.Sub, ast.Mult, ast.Div, ast.Pow)) for x in ast.walk(d_)):
+                        computed = True
+            elif any(isinstance(x, ast.BinOp) and isinstance(x.op, (ast.Add, ast.Sub, ast.Mult, ast.Div, ast.Pow)) for x in ast.walk(v)):
+                computed = True
+            if not computed:
+                continue
+            n += 1
+            pm = parent_map(f.node)
+            caught = False
+            x = c
+            while id(x) in pm:
+                par = pm[id(x)]
+                if isinstance(par, ast.Try) and any(x is b_ or any(x is y for y in ast.walk(b_)) for b_ in par.body):
+                    for h in par.handlers:
+                        names = {"Exception"} if h.type is None else {dotted(t_).split(".")[-1] for t_ in (h.type.elts if isinstance(h.type, ast.Tuple) else [h.type])}
+                        if names & {"OverflowError", "ArithmeticError", "Exception", "BaseException"}:
+                            caught = True
+                x = par
+            ranged = any(re.search(r"isfinite|isinf|abs\(|<=|>=", unparse(t_)) and unparse(v) in unparse(t_) for t_, _ in guard_facts(f.node, c))
+            inst = f"{f.fq}:FloatAttr@{c.lineno}"
+            if caught or ranged:
+                r.ok(inst, f"{f.module.relpath}:{c.lineno} overflow of the rounding handled")
+            else:
+                r.fail(inst, Finding("C14.R11", f.fq, f"fold-overflow-unhandled:{unparse(v)[:30]}", f"`{unparse(c)[:70]}` rounds a computed value to the precision of the operand type by packing it; for a finite result that exceeds the type's range (mulf 3e38, 10 : f32) struct.pack raises OverflowError, which nothing catches: canonicalize fails instead of folding to infinity or leaving the operation in place", f"{f.module.relpath}:{c.lineno}"))
+    if n == 0:
+        raise AnalysisError(f"{CP}: no FloatAttr built from a computed value found")
+
+
 def check_select_patterns(idx: Index, rep: Report) -> None:
     """select %c, K1, K0 over constants may be replaced by the condition itself (i1, K1 true, K0 false) or by its zero
     extension (K1 == 1 and K0 == 0).  Truthiness of K1 is enough only for i1, where the only non-zero value is true."""
@@ -567,6 +615,7 @@ def check(idx: Index, rep: Report, tier: str) -> str:
     rep.run(check_truth_propagation, idx, rep)
     rep.run(check_fastmath_guards, idx, rep)
     rep.run(check_select_patterns, idx, rep)
+    rep.run(check_float_fold_overflow, idx, rep)
     return (
         "Table-agreement and guard rules over arith's folders, the arith canonicalization patterns, constant-fold-interp, "
         "the constant-folding test pass and CSE: folded integers are truncated, fold patterns catch what the interpreter "
